@@ -6,7 +6,7 @@ LEVEL = _core.LEVEL
 tiers = {
     "quick": {"runs": 0, "chunk": 1, "wall_cap_s": 2400, "determinism_samples": 4,
               "max_minimise": 3, "minimise_budget_s": 30},
-    "thorough": {"runs": 0, "chunk": 1, "wall_cap_s": 3300, "determinism_samples": 12,
+    "thorough": {"runs": 0, "chunk": 1, "wall_cap_s": 7200, "determinism_samples": 12,
                  "max_minimise": 5, "minimise_budget_s": 90},
 }
 
